@@ -357,23 +357,41 @@ def check(c, res, pid, groups):
                                 '%s %s differs from the regional channel plan: %s' % (sr, meth, ['channel %d: %s Hz, plan %d Hz' % b_ for b_ in bad[:3]] if arr else 'not evaluated'), r,
                                 'ORACLE(channel plan frequencies)', instance='%s: %d %s frequencies = regional plan' % (sr, len(want), key))
             else:
+                # default channels: init_channels run by the abstract interpreter on an all-symbolic plan; the slots it defines and their
+                # frequencies (a constant, or a constant minus the AS923 group offset) are read from the resulting memory
+                from .. import absint_interp
                 ib = tables._method_body(prog, r, DCR, 'init_channels')
-                bfi = c.pf.bf(ib)
-                fs = [term_of_operand(bfi, t.args[0]) for bb, t in bfi.calls() if callee_name(t).endswith('Channel::new')]
+                an = absint_interp.new_analyzer(prog, max_depth=5)
+                fr, out = an.analyze_entry(ib)
+                slots = None
+                if out is not None:
+                    for k_, v_ in out.mem.items():
+                        if isinstance(v_, tuple) and v_ and v_[0] == 'array' and k_[0] == 'obj' and str(k_[1]).startswith('p1_'):
+                            slots = v_
+                forms = []
+                if slots is not None:
+                    for i_ in sorted(slots[2]):
+                        e = slots[2][i_]
+                        if e is None or e[0] != 'adt' or e[2] != frozenset([1]):
+                            forms.append((i_, None, None))
+                            continue
+                        ch = an.field_of(e, 1, '0', out, fr)
+                        f = an.field_of(ch, 0, 'frequency', out, fr)
+                        lin = an.as_int(f, out) if f is not None else None
+                        if lin is None:
+                            forms.append((i_, None, None))
+                            continue
+                        terms = dict(lin.co)
+                        coef = sum(v for k2, v in terms.items() if 'OFFSET' in str(k2))
+                        other = [k2 for k2 in terms if 'OFFSET' not in str(k2)]
+                        forms.append((i_, None if other else lin.k, coef))
                 for off in (sorted(o['groups']) if sr == 'AS923Region' else [0]):
-                    vals = []
-                    for t in fs:
-                        lin, k = rules.linear(t)
-                        if not lin:
-                            vals.append(k)
-                        elif len(lin) == 1 and 'OFFSET' in str(list(lin)[0]):
-                            vals.append(k + list(lin.values())[0] * off)
-                        else:
-                            vals.append(None)
+                    vals = [None if k0 is None else k0 + co * off for (i_, k0, co) in forms]
+                    idx = [i_ for (i_, k0, co) in forms]
                     want = [f - off for f in o['join_base']] if sr == 'AS923Region' else o['join_channels']
                     n_cells += len(want)
-                    res.require(vals == want, '%s:regional:%s%s:default-channels' % (pid, sr, ':%d' % off if sr == 'AS923Region' else ''),
-                                '%s default (join) channels %s, regional parameters %s' % (o.get('groups', {}).get(off, sr), vals, want), r, 'ORACLE(default channels)',
+                    res.require(slots is not None and vals == want and idx == list(range(len(want))), '%s:regional:%s%s:default-channels' % (pid, sr, ':%d' % off if sr == 'AS923Region' else ''),
+                                '%s default (join) channels %s in slots %s, regional parameters %s in slots 0..%d' % (o.get('groups', {}).get(off, sr), vals, idx, want, len(want) - 1), r, 'ORACLE(default channels)',
                                 instance='%s: default channels %s' % (o.get('groups', {}).get(off, sr), want))
     if 'cr' in groups:
         bl = [b for p_, bl_ in prog.by_short.items() if p_.endswith('region::RegionHandler::get_coding_rate') for b in bl_]
